@@ -2259,7 +2259,9 @@ where
         let end = self.read.index();
         if should_replace && start < end {
             let slice = self.read.slice_unchecked(start, end);
-            *schema = crate::from_slice(slice)?;
+            // the nested parse only sees the span: put its error back into the input
+            *schema = crate::from_slice(slice)
+                .map_err(|err| err.rebase_sub(self.read.as_u8_slice(), start))?;
         }
         Ok(())
     }
